@@ -7,6 +7,8 @@ A file is its name and the list of its records (name, sequence); a *unit* is one
 signatures the command writes: the name it gives them (`none` = the name is left as
 `from_params` made it, i.e. empty), the `filename` it records, and the records it fed.
 -/
+import SmVerif.Model.Generated
+
 namespace Sm.Sketch
 
 structure SeqFile where
@@ -90,7 +92,8 @@ def planOutputs (mode : NameMode) (o : OutMode) (files : List SeqFile) :
   | _, .single => .ok ((plan mode files).map (fun u => ("out.sig".toList, u)))
   | _, .dir ex =>
     let us := plan mode files
-    if us.isEmpty then .ok [] else if !ex then .error .noDir
+    -- whether `_compute_individual` creates the directory (patches/C14.2) is read from the source by the translator
+    if us.isEmpty then .ok [] else if !(ex || Gen.sketchCreatesOutdir) then .error .noDir
     else .ok (us.map (fun u => ("outd/".toList ++ basename u.filename ++ ".sig".toList, u)))
   | _, .cwd => .ok ((plan mode files).map (fun u => (basename u.filename ++ ".sig".toList, u)))
 
